@@ -3778,24 +3778,7 @@ def _c14_known_order(inputs, observed):
 
 
 KNOWN = [
-    {
-        'property': 'C14',
-        'clause': 'hash-seed-deterministic',
-        'match': 'a pending ChangeMeta(unique_together | index_together) '
-                 'that adds (or removes) two or more tuples (atoms ut3 / '
-                 'it3 / ut2_doc); outputs `evolve --sql` and `evolve --hint --sql`',
-        'predicate': lambda inputs, observed: (
-            observed.get('output') in ('sql', 'hint_sql') and
-            bool(_c14_atoms(inputs) & set(['ut3', 'it3', 'ut2_doc']))),
-        'what': 'BaseEvolutionOperations.change_meta_unique_together / '
-                'change_meta_index_together turn the old and new values '
-                'into Python sets and emit DROP/CREATE INDEX statements '
-                'while iterating over those sets, so the statement order '
-                'depends on the string hash seed of the process.',
-        'inputs': {'scenario': {'apps': {'pva': {
-            'start': 0, 'evolutions': [['e1', ['ut3']]]}}},
-            'seeds': [0, 1, 2]},
-    },
+    # (C14 hash-seed-deterministic: fixed in /repo - see known_findings.json 'fixed')
     {
         'property': 'C14',
         'clause': 'preview-parameters-substituted',
@@ -3970,7 +3953,8 @@ KNOWN = [
 ]
 
 for _n, _entry in enumerate(KNOWN):
-    _entry['id'] = '%s-%s-%d' % (_entry['property'], _entry['clause'], _n)
+    # ids are stable names (the first recorded entry, C14 hash-seed-deterministic-0, was repaired in /repo)
+    _entry['id'] = '%s-%s-%d' % (_entry['property'], _entry['clause'], _n + 1)
 
 
 def _main(argv):
